@@ -4,6 +4,7 @@ use crate::verif::report::Report;
 pub(crate) mod c01;
 pub(crate) mod c02;
 pub(crate) mod c03;
+pub(crate) mod c04;
 pub(crate) mod c05;
 pub(crate) mod c07;
 pub(crate) mod c09;
@@ -33,6 +34,7 @@ pub(crate) fn run(id: &str, opts: &Opts) -> Option<i32> {
         "C01" => c01::run(opts, &mut report),
         "C02" => c02::run(opts, &mut report),
         "C03" => c03::run(opts, &mut report),
+        "C04" => c04::run(opts, &mut report),
         "C05" => c05::run(opts, &mut report),
         "C07" => c07::run(opts, &mut report),
         "C09" => c09::run(opts, &mut report),
